@@ -4,6 +4,7 @@
 package hs
 
 import (
+	"context"
 	"crypto/ecdsa"
 	"crypto/elliptic"
 	"crypto/rand"
@@ -12,6 +13,7 @@ import (
 	"crypto/x509/pkix"
 	"encoding/base64"
 	"encoding/json"
+	"errors"
 	"fmt"
 	"math/big"
 	"sort"
@@ -58,6 +60,27 @@ const (
 
 var ServerNode = lime.Node{Identity: lime.Identity{Name: "postmaster", Domain: Domain}, Instance: "srv1"}
 var RegNode = lime.Node{Identity: lime.Identity{Name: "registered", Domain: Domain}, Instance: "assigned"}
+
+// RegNodePartial: what the registration callback hands out in every other case - an address without an
+// instance. The established session must announce exactly what the callback supplied, complete or not.
+var RegNodePartial = lime.Node{Identity: lime.Identity{Name: "registered", Domain: Domain}}
+
+// RegFor picks the registered node of case n.
+func RegFor(n int) lime.Node {
+	if n%2 == 1 {
+		return RegNodePartial
+	}
+	return RegNode
+}
+
+// CallbackErr is what a failing callback of case n returns: a plain error, or (every other case) one that
+// wraps a context error, as a callback does whose own backend timed out.
+func CallbackErr(n int, what string) error {
+	if n%2 == 1 {
+		return fmt.Errorf("%s: backend: %w", what, context.DeadlineExceeded)
+	}
+	return errors.New(what)
+}
 
 func splitSet(s string) []string {
 	if s == "" {
@@ -244,7 +267,7 @@ func nodeClass(v interface{}, reg string) string {
 	switch s {
 	case ServerNode.String():
 		return "srv"
-	case reg:
+	case reg, RegNodePartial.String():
 		return "reg"
 	}
 	return "other"
